@@ -18,6 +18,7 @@
 -/
 import Hy.Proofs.SniffTCP
 import Hy.Proofs.QuicInitial
+import Hy.Model.SniffServer
 import Hy.Gen.Extras
 set_option linter.unusedSimpArgs false
 set_option linter.unusedVariables false
@@ -358,5 +359,83 @@ theorem udp_pinned_counterexample :
     Quic.sniffUDP ⟨true, false⟩ C id (fun _ => none) [] pkt
       = .ok ⟨[0xcf, 0, 0, 0, 1, 0, 0, 0, 20, 0x55, 0x55, 0x55, 0x55] ++ List.replicate 16 0xaa, [], false⟩ ∧
     Quic.sniffUDP Quic.fixed C id (fun _ => none) [] pkt = .ok ⟨pkt, [], false⟩ := by decide
+
+/-! ### the server's composition (core/server/server.go hook branch, core/server/udp.go)
+
+What the TARGET receives.  Assumptions, stated in the theorems: the outbound dial succeeds,
+`tConn.Write(putback)` accepts all of it (`written ≥ putback.length`; the code ignores that
+call's error), and the relay delivers every byte still unread on the stream in order (C06).
+The end-to-end stream `sniffe2e` (real server, real Sniffer as RequestHook, real client over
+loopback, recording Outbound) checks the same statement on the implementation. -/
+
+open Hy.SniffServer in
+/-- **server_hook_transparent.** For every client byte stream, chunking, deadline point and parser
+    behaviour, a hooked TCP request whose address has a port: the target's byte stream is exactly
+    the client's byte stream; the address dialled is the one the sniffer left (so
+    `host_only_from_bytes` / `port_preserved` apply to it); exactly one response header is
+    written to the client. -/
+theorem server_hook_transparent (cfg : Cfg) (P : Parsers) (addr : Bytes) (s : Stream) (written : Nat)
+    (hfirst : FirstReadCovers P) (haddr : splitHostPort addr ≠ none)
+    (hw : ∀ out, sniffTCP cfg P addr s = .ok out → out.putback.length ≤ written) :
+    ∃ out, sniffTCP cfg P addr s = .ok out ∧
+      hookedTCP cfg P true written addr s = .ok ⟨some out.addr, s.unread, 1⟩ := by
+  obtain ⟨out, ho, ht⟩ := tcp_transparent_total cfg P addr s hfirst haddr
+  refine ⟨out, ho, ?_⟩
+  simp only [hookedTCP, ho, ↓reduceIte, List.take_of_length_le (hw out ho), ht]
+
+open Hy.SniffServer in
+/-- an unhooked request is dialled as asked and relayed as is -/
+theorem server_unhooked_untouched (cfg : Cfg) (P : Parsers) (addr : Bytes) (s : Stream) (written : Nat) :
+    hookedTCP cfg P false written addr s = .ok ⟨some addr, s.unread, 1⟩ := by
+  simp [hookedTCP]
+
+open Hy.SniffServer in
+/-- the write assumption is needed: a target that accepts only part of the replay loses bytes -/
+theorem server_short_write_loses_bytes :
+    hookedTCP fixed ⟨[4096], fun _ => none, fun _ => none⟩ true 1 b!"1.2.3.4:80"
+      ⟨[b!"GET /"], none, false⟩ = .ok ⟨some b!"1.2.3.4:80", b!"G /", 1⟩ := by decide
+
+open Hy.SniffServer in
+/-- **udp_hook_forwards_unmodified.** First datagram of a hooked UDP session, any packet and any
+    behaviour of the crypto parameters: either no connection is created (only when the address
+    has no port), or Outbound.UDP is dialled with the address the sniffer left and the first
+    WriteTo carries the client's datagram byte for byte, to that same address. -/
+theorem udp_hook_forwards_unmodified (C : Quic.Crypto) (sortFn : List Quic.Frame → List Quic.Frame)
+    (sni : Bytes → Option Bytes) (addr data : Bytes) (hc : CryptoContract C sortFn) :
+    ∃ addr' err, Quic.sniffUDP Quic.fixed C sortFn sni addr data = .ok ⟨data, addr', err⟩ ∧
+      hookedUDP Quic.fixed C sortFn sni true addr data
+        = .ok (if err then ⟨none, none⟩ else ⟨some addr', some (data, addr')⟩) ∧
+      (err = true → splitHostPort addr = none) := by
+  obtain ⟨a, e, h, hx⟩ := Quic.sniffUDP_spec C sortFn sni addr data hc.2 hc.1
+  refine ⟨a, e, h, ?_, ?_⟩
+  · simp only [hookedUDP, h, ↓reduceIte]
+    cases e <;> rfl
+  · intro he
+    subst he
+    -- err = true arises only on the SplitHostPort failure branch
+    unfold Quic.sniffUDP at h
+    obtain ⟨pl, hpl⟩ := Quic.readCryptoPayload_spec C sortFn data hc.2 hc.1
+    simp only [Res.bind_eq, hpl, Res.bind_ok] at h
+    cases pl with
+    | none => simp at h
+    | some pl =>
+      simp only at h
+      split at h
+      · simp at h
+      · rename_i h4
+        rw [Quic.idx_ok pl 0 (by omega)] at h
+        simp only [Res.bind_ok] at h
+        split at h
+        · simp at h
+        · cases hs : sni pl with
+          | none => rw [hs] at h; simp at h
+          | some n =>
+            rw [hs] at h
+            simp only at h
+            split at h
+            · cases hsp : splitHostPort addr with
+              | none => rfl
+              | some hp => rw [hsp] at h; simp at h
+            · simp at h
 
 end Hy.Props.C17
